@@ -381,7 +381,14 @@ func (c *Ctx) localUse(u ssa.Instruction, v ssa.Value) bool {
 		}
 		return argIdx >= 0 && c.callbackOnlyCalls(prm, argIdx, 0)
 	}
-	return c.P.InTarget(cal)
+	return c.P.InTarget(cal) || callsBackOnly[core.CalleeName(ci.Common())]
+}
+
+// callsBackOnly: standard-library functions that call a function argument synchronously and keep no reference to it.
+var callsBackOnly = map[string]bool{
+	"sort.Slice": true, "sort.SliceStable": true, "sort.SliceIsSorted": true, "sort.Search": true,
+	"strings.Map": true, "strings.FieldsFunc": true, "strings.IndexFunc": true, "strings.TrimFunc": true,
+	"strings.TrimLeftFunc": true, "strings.TrimRightFunc": true, "(*sync.Once).Do": true,
 }
 
 // spilledParam: v is a parameter, or a read of the variable a parameter was spilled to because a nested function
